@@ -417,6 +417,8 @@ fn gds_case(src: &mut Src, ctx: &mut Ctx) -> Result<(), String> {
     ctx.sample("GDSII struct reference graph", || describe(&g, &listing));
     let mut lib = gds21::GdsLibrary::new("lib");
     let views = src.u64();
+    // one library in eight holds an array of 32768 or more elements (both counts within the format's range)
+    let mut big_array = if (views >> 50) & 7 == 0 { Some([(256i16, 128i16), (32767, 2), (2, 32767), (256, 256)][((views >> 53) & 3) as usize]) } else { None };
     for &i in &listing {
         let mut s = gds21::GdsStruct::new(name_of(i));
         // most tools stream a cell's own geometry before its references (every other struct here does)
@@ -433,9 +435,10 @@ fn gds_case(src: &mut Src, ctx: &mut Ctx) -> Result<(), String> {
             } else {
                 s.elems.push(gds21::GdsElement::GdsArrayRef(gds21::GdsArrayRef {
                     name: name_of(*d),
-                    xy: [gds21::GdsPoint::new(0, 0), gds21::GdsPoint::new(10, 0), gds21::GdsPoint::new(0, 10)],
-                    cols: 1,
-                    rows: 1,
+                    // (the second and third point span all columns / rows: a pitch of 10, or of 1 for the large array)
+                    xy: [gds21::GdsPoint::new(0, 0), gds21::GdsPoint::new(big_array.map(|b| b.0 as i32).unwrap_or(10), 0), gds21::GdsPoint::new(0, big_array.map(|b| b.1 as i32).unwrap_or(10))],
+                    cols: big_array.map(|b| b.0).unwrap_or(1),
+                    rows: big_array.take().map(|b| b.1).unwrap_or(1),
                     ..Default::default()
                 }));
             }
@@ -452,7 +455,7 @@ fn gds_case(src: &mut Src, ctx: &mut Ctx) -> Result<(), String> {
 
 /// `views` decides, two bits per node (mod 32), which view a cell WITHOUT instances gets: a layout,
 /// an abstract only, or a raw-layout pointer only. Cells with instances always have a layout.
-fn tetris_lib(g: &Graph, listing: &[usize], views: u64) -> tet::library::Library {
+fn tetris_lib(g: &Graph, listing: &[usize], views: u64, awaiting: bool) -> tet::library::Library {
     use tet::{abs::Abstract, cell::Cell, cell::RawLayoutPtr, instance::Instance, layout::Layout, outline::Outline};
     let rawlib = Ptr::new(raw::Library::new("rawlib", raw::Units::Nano));
     let ptrs: Vec<Ptr<Cell>> = (0..g.len())
@@ -474,6 +477,21 @@ fn tetris_lib(g: &Graph, listing: &[usize], views: u64) -> tet::library::Library
             c.abs = Some(Abstract::new(name_of(i), 0, Outline::rect(1, 1).unwrap()));
         }
         let lay = c.layout.as_mut().unwrap();
+        // one cell in four (where the caller allows it) holds its content as objects awaiting placement:
+        // instances, or one-element arrays of the cell, in `places` and nothing in `instances`
+        if awaiting && (views >> (i % 23)) & 3 == 1 {
+            use tet::placement::Placeable;
+            for (k, d) in deps.iter().enumerate() {
+                if (k + i) % 2 == 0 {
+                    lay.places.push(Placeable::Instance(Ptr::new(Instance { inst_name: format!("p{}", k), cell: ptrs[*d].clone(), loc: (k as isize, 0isize).into(), reflect_horiz: false, reflect_vert: false })));
+                } else {
+                    let inner = Ptr::new(tet::array::Array { name: format!("a{}", k), unit: tet::array::Arrayable::Instance(ptrs[*d].clone()), count: 1 + k % 2, sep: tet::placement::Separation::default() });
+                    let arr = if k % 3 == 0 { Ptr::new(tet::array::Array { name: format!("aa{}", k), unit: tet::array::Arrayable::Array(inner), count: 1, sep: tet::placement::Separation::default() }) } else { inner };
+                    lay.places.push(Placeable::Array(Ptr::new(tet::array::ArrayInstance { name: format!("ai{}", k), array: arr, loc: (k as isize, 2isize).into(), reflect_vert: false, reflect_horiz: false })));
+                }
+            }
+            continue;
+        }
         for (k, d) in deps.iter().enumerate() {
             // (instance names in bus notation now and then: `u[1]`, `bit[7]`)
             let iname = match (k + i) % 5 { 3 => format!("u[{}]", k + 1), 4 => format!("bit{}[7]", k), _ => format!("i{}", k) };
@@ -498,7 +516,7 @@ fn tetris_case(src: &mut Src, ctx: &mut Ctx) -> Result<(), String> {
     if (0..g.len()).any(|i| g[i].is_empty() && (views >> (2 * (i % 32))) & 3 >= 2 && g.iter().filter(|d| d.contains(&i)).count() >= 2) {
         ctx.label("shared cell without a layout view (abstract-only / raw-only)");
     }
-    let lib = tetris_lib(&g, &listing, views);
+    let lib = tetris_lib(&g, &listing, views, true);
     let res = crate::props::compat::tetris_dep_order(&lib).and_then(|o| o.iter().map(|p| index_of(&p.read().unwrap().name)).collect());
     judge(&g, &listing, res, "tetris Library::dep_order")?;
     // a second question to the same library after its instance graph has changed (one more instance,
@@ -541,7 +559,7 @@ fn tetris_case(src: &mut Src, ctx: &mut Ctx) -> Result<(), String> {
     // (all instances here have absolute locations, so nothing else can go wrong)
     let reach = reachable(&g, &listing);
     let cyclic = has_cycle(&g, &reach);
-    let placed = tet::placer::Placer::place(tetris_lib(&g, &listing, views), empty_stack());
+    let placed = tet::placer::Placer::place(tetris_lib(&g, &listing, views, true), empty_stack());
     match (cyclic, placed) {
         (true, Ok(_)) => Err(format!("Placer::place: the cell graph {:?} (listing {:?}) has a cycle but placement succeeded instead of reporting an error", g, listing)),
         (false, Err(e)) => Err(format!("Placer::place: acyclic cell graph {:?} (listing {:?}) was refused: {:?}", g, listing, e)),
@@ -553,7 +571,7 @@ fn tetris_proto_case(src: &mut Src, ctx: &mut Ctx) -> Result<(), String> {
     unlist(src, &g, &mut listing);
     classify(&g, &listing, ctx);
     let views = src.u64();
-    let lib = tetris_lib(&g, &listing, views);
+    let lib = tetris_lib(&g, &listing, views, false);
     let res = match tet::conv::proto::ProtoExporter::export(&lib) {
         Err(e) => Err(format!("{:?}", e)),
         Ok(p) => p.cells.iter().map(|c| index_of(&c.name)).collect(),
